@@ -181,6 +181,17 @@ fn is_passthrough_length(value: &str) -> bool {
             || value.contains(ELREF_PREVIOUS))
 }
 
+/// What a `clipPath` lets through
+#[derive(Clone, Copy, Debug)]
+pub enum ClipRegion {
+    /// this box (in user units, or in fractions of the clipped element's box)
+    Box(BoundingBox),
+    /// nothing at all: no content, or a clip path of its own which leaves none of it
+    Nothing,
+    /// not known: the content has no box in user units
+    Unknown,
+}
+
 impl SvgElement {
     pub fn new(name: &str, attrs: &[(String, String)]) -> Self {
         let mut attr_map = AttrMap::new();
@@ -911,16 +922,11 @@ impl SvgElement {
         }
     }
 
-    /// What this `clipPath` element, with `clip_bbox` the box of its content, leaves
-    /// of `bbox` (a box in the user space of the element it clips).
-    pub fn clip(
-        &self,
-        bbox: BoundingBox,
-        clip_bbox: Option<BoundingBox>,
-        ctx: &TransformerContext,
-    ) -> Option<BoundingBox> {
-        match clip_bbox {
-            Some(cb) => {
+    /// What this `clipPath` element, which lets `region` through, leaves of `bbox` (a
+    /// box in the user space of the element it clips).
+    pub fn clip(&self, bbox: BoundingBox, region: ClipRegion) -> Option<BoundingBox> {
+        match region {
+            ClipRegion::Box(cb) => {
                 if self.get_attr("clipPathUnits").as_deref() == Some("objectBoundingBox") {
                     // the content is given in fractions of the clipped element's box
                     let (w, h) = (bbox.width(), bbox.height());
@@ -934,17 +940,20 @@ impl SvgElement {
                     bbox.intersect(&cb)
                 }
             }
-            None => {
-                // With nothing inside to draw through, everything is clipped away;
-                // content without a box in user units is left out of account.
-                let has_content = self.inner_events(ctx).is_some_and(|events| {
-                    events
-                        .iter()
-                        .any(|ev| ev.start_name_and_xmlns().is_some())
-                });
-                has_content.then_some(bbox)
-            }
+            // With nothing to draw through, everything is clipped away...
+            ClipRegion::Nothing => None,
+            // ... while content without a box in user units is left out of account.
+            ClipRegion::Unknown => Some(bbox),
         }
+    }
+
+    /// Does this element have child elements?
+    pub fn has_child_elements(&self, ctx: &TransformerContext) -> bool {
+        self.inner_events(ctx).is_some_and(|events| {
+            events
+                .iter()
+                .any(|ev| ev.start_name_and_xmlns().is_some())
+        })
     }
 
     /// Apply any `transform` attr transformations to a bbox in this element's user space
